@@ -1,4 +1,5 @@
 import ElkVerif.Proofs.Narrow
+import ElkVerif.Props.C01B
 /-!
 # C02 — Static types describe runtime values (narrowing tables)
 
@@ -150,5 +151,19 @@ example :
     let ρ : VEnv := fun x => if x = 0 then .tru else .i1
     (eval ρ (check found Γ c)).truthy = true ∧
     (Val.all.map (thenEnv found Γ c 0)) = [false, false, true, false, false, false] := by decide
+
+
+/-! ## Preservation for whole MiniElk programs (from the C01 soundness development) -/
+
+open Elk.Mini in
+/-- every cell of the store always holds a value of the type it was declared with, and the value of the main
+block has the block's static type — for every program `checkProg` accepts (statements, methods, closures), every fuel.
+(`Elk.C01B.preservation_B`; the model checker is tied to the real one by C01's run.) -/
+theorem preservation_programs (k : Nat) (p : Prog) (h : checkProg k p = true) (fuel : Nat) :
+    ∃ (t : T) (S : List T), (runProg fuel p).2.store.length = S.length ∧
+      (∀ (i : Nat) v ti, (runProg fuel p).2.store[i]? = some v → S[i]? = some ti → HasTy p.defs S v ti) ∧
+      (checkBlock p.defs k ⟨[], [], none, []⟩ p.main).map (·.1) = some t ∧
+      (∀ v, (runProg fuel p).1 = .val v → HasTy p.defs S v t) :=
+  Elk.C01B.preservation_B k p h fuel
 
 end Elk.C02
